@@ -12,11 +12,20 @@ func (srv *Server) Accessories(w http.ResponseWriter, r *http.Request) {
 	case hap.MethodGET:
 		log.Debug.Printf("%v GET /accessories", r.RemoteAddr)
 
+		// The accessories are encoded while the lock is held and written afterwards: a
+		// controller which reads its response slowly does not keep the other ones waiting.
 		srv.mutex.Lock()
-		if err := WriteJSON(w, r, srv.container); err != nil {
-			log.Info.Println(err)
-		}
+		buf, err := JSONEncode(srv.container)
 		srv.mutex.Unlock()
+
+		if err != nil {
+			log.Info.Println(err)
+			http.Error(w, err.Error(), http.StatusInternalServerError)
+			return
+		}
+
+		wr := hap.NewChunkedWriter(w, 2048)
+		wr.Write(buf.Bytes())
 
 	default:
 		log.Debug.Println("Cannot handle HTTP method", r.Method)
